@@ -131,8 +131,9 @@ CLAIMED = {
         "trunc_horizon (for every program, steps of any size and sign, the truncated run equals the untruncated one on all phase states "
         "|k| <= 2m+1-A with A the accumulated absolute shift since the last reset, by induction over programs with a contamination-front invariant) "
         "and trunc_F0_Z0_exact (every F0/Z0 acquisition with A <= 2m+1 is identical). The n-D truncation, pruning-bound, prune=0, partials-pruner and "
-        "merging clauses are NOT theorems: they are run as oracles on the implementation (truncated vs untruncated incl. caps lowered mid-sequence, "
-        "pruned vs unpruned against 2*eps*cumulative state count, merged vs unmerged value at position 0) -- testing.",
+        "merging clauses are NOT theorems: they are run as oracles on the implementation (truncated vs untruncated incl. caps lowered mid-sequence and "
+        "oblique n-D out-and-back echoes with the cap reached exactly, pruned vs unpruned against 2*eps*cumulative state count, Jacobians with a counting "
+        "PartialsPruner against 2*threshold*removals incl. batches, merged vs unmerged value at position 0, sum invariants of merging) -- testing.",
    design_ref="DESIGN.md section 4 C13",
    note=TB + "Model/Ops.v apply_shift (resize(min(n+|d|, nmax)) + in-place shift) tied to shift.py by exact correspondence of truncated programs (global max_nstate and per-operator nmax). "
         "Axioms: none.",
